@@ -103,8 +103,12 @@ func runC09(c *Ctx) {
 			ok := len(vs) == 1
 			var bad []string
 			if ok {
-				for _, l := range leafSources(vs[0]) {
-					if l == `""` || strings.HasPrefix(l, "(*base64.Encoding).EncodeToString(StdEncoding,invoke:Server.Next#0") {
+				okChal := func(l string) bool {
+					return l == `""` || strings.HasPrefix(l, "(*base64.Encoding).EncodeToString(StdEncoding,invoke:Server.Next#0")
+				}
+				// an encoding helper (encodeChallenge(challenge)) is looked through: what it returns, in the caller's terms
+				for _, l := range leafSourcesThroughHelpers(vs[0], okChal) {
+					if okChal(l) {
 						continue
 					}
 					ok = false
